@@ -64,12 +64,18 @@ OIter       == [op |-> "iter", j |-> "-", k |-> "-", v |-> "-"]
 OCheck      == [op |-> "check", j |-> "-", k |-> "-", v |-> "-"]
 
 NoDoc == [x \in {} |-> {}]
-S(script, ws, jobs, jobs0, doc0, pre) ==
-  [script |-> script, ws |-> ws, jobs |-> jobs, jobs0 |-> jobs0, doc0 |-> doc0, pre |-> pre]
+SS(script, ws, jobs, jobs0, doc0, pre, big) ==
+  [script |-> script, ws |-> ws, jobs |-> jobs, jobs0 |-> jobs0, doc0 |-> doc0, pre |-> pre, big |-> big]
+S(script, ws, jobs, jobs0, doc0, pre) == SS(script, ws, jobs, jobs0, doc0, pre, FALSE)
 
 (* ws: the workspace directory exists initially; jobs0: jobs that exist (valid) initially; doc0: their
    documents (only jobs with a document file); pre: processes holding a Project handle made earlier
-   (their script has no "proj" and they never looked at the workspace directory). *)
+   (their script has no "proj" and they never looked at the workspace directory);
+   big: a hint for the binding only - every document value is materialised as a string of >= 16 KiB and all values
+   have the SAME length, so successive versions of a document have the same serialized size (and, because the harness
+   gives every completed document file the same whole-second time stamp, the same mtime: a coarse-timestamp file
+   system).  Sizes and time stamps are metadata the property does not speak about: the model is unchanged, every
+   handle is long-lived (one per process and job), and ReadsSeeCompletedWrites says what each read must return. *)
 Builtin(n) ==
   CASE n = "init_same" ->        \* two processes initialise the same job; the workspace exists and is empty
          S([p1 |-> <<OProj, OInit("j1"), OLen>>, p2 |-> <<OProj, OInit("j1"), OLen>>], TRUE, {"j1"}, {}, NoDoc, {})
@@ -93,6 +99,13 @@ Builtin(n) ==
     [] n = "reader_sees" ->      \* one writer (two writes, the second overwrites a key), one reader reading twice
          S([p1 |-> <<OProj, OSet("j1", "k", "1"), OSet("j1", "k", "2")>>, p2 |-> <<OProj, OGet("j1"), OGet("j1")>>],
            TRUE, {"j1"}, {"j1"}, [j1 |-> {<<"x", "0">>}], {})
+    [] n = "reader_sees_big" ->  \* large same-size versions: a long-lived reader handle reads before / between / after the completed writes
+         SS([p1 |-> <<OProj, OSet("j1", "k", "1"), OSet("j1", "k", "2")>>, p2 |-> <<OProj, OGet("j1"), OGet("j1"), OGet("j1")>>],
+            TRUE, {"j1"}, {"j1"}, [j1 |-> {<<"k", "0">>}], {}, TRUE)
+    [] n = "doc_writers_big" ->  \* the same with writers on different jobs, each re-reading the other's large document
+         SS([p1 |-> <<OProj, OSet("j1", "k", "1"), OGet("j2"), OSet("j1", "k", "2")>>,
+             p2 |-> <<OProj, OGet("j1"), OSet("j2", "k", "1"), OGet("j1")>>],
+            TRUE, {"j1", "j2"}, {"j1", "j2"}, [j1 |-> {<<"k", "0">>}, j2 |-> {<<"k", "0">>}], {}, TRUE)
     [] n = "init_doc_mix" ->     \* initialise + write on one side, read + initialise on the other, same job, nothing exists
          S([p1 |-> <<OProj, OInit("j1"), OSet("j1", "k", "1")>>, p2 |-> <<OProj, OGet("j1"), OInit("j1"), OGet("j1")>>],
            FALSE, {"j1"}, {}, NoDoc, {})
@@ -116,7 +129,7 @@ FromJson(r) ==
                  [i \in 1..Len(r.procs[p]) |-> LET o == r.procs[p][i] IN [op |-> o[1], j |-> o[2], k |-> o[3], v |-> o[4]]]],
    ws |-> r.ws, jobs |-> SeqToSet(r.jobs), jobs0 |-> SeqToSet(r.jobs0),
    doc0 |-> [j \in DOMAIN r.doc0 |-> {<<r.doc0[j][i][1], r.doc0[j][i][2]>> : i \in 1..Len(r.doc0[j])}],
-   pre |-> SeqToSet(r.pre)]
+   pre |-> SeqToSet(r.pre), big |-> r.big]
 
 Scn    == IF Scenario = "file" THEN FromJson(ndJsonDeserialize(IOEnv.C12_SCENARIO)[1]) ELSE Builtin(Scenario)
 Script == Scn.script
@@ -431,7 +444,7 @@ FinalSequential ==
 
 \* what the harness needs to know about the scenario and the expected end result (printed once, parsed by the driver)
 Describe == [scenario |-> Scenario, script |-> Script, ws |-> Scn.ws, jobs |-> Jobs, jobs0 |-> Scn.jobs0,
-             doc0 |-> [j \in Jobs |-> Doc0(j)], hasdoc0 |-> DOMAIN Scn.doc0, pre |-> Scn.pre,
+             doc0 |-> [j \in Jobs |-> Doc0(j)], hasdoc0 |-> DOMAIN Scn.doc0, pre |-> Scn.pre, big |-> Scn.big,
              requested |-> Requested, seqdoc |-> [j \in Jobs |-> SeqDoc(j)], hasdoc |-> {j \in Jobs : HasDocFile(j)},
              wsfinal |-> WsExpected]
 ASSUME PrintT(<<"C12-SCENARIO", Describe>>)
